@@ -144,6 +144,12 @@ MC_ModesSizes == {-1, 1, 4097}
 MC_ModesLays == {<<"per", 37>>}
 MC_LinesLays == {<<"per", 0>>, <<"at", 4095>>, <<"at", 4096>>, <<"crlf", 37>>, <<"per", 4097>>}
 MC_None == {}
+(* files much larger than every internal buffer / chunk size of the io library
+   (4096-byte bufio buffers, 65536-byte read chunks), counts just below, at and
+   above those sizes *)
+MC_HugeSizes == {70000, 200000}
+MC_HugeCounts == {65535, 65536, 65537, 70000, 131073}
+MC_HugeSOffs == {0, 65536}
 (* format lists *)
 F_c(n) == <<"c", n>>
 F_l == <<"l", 0>>
